@@ -57,7 +57,9 @@ class Case:
         self.op, self.args, self.exp, self.shape, self.nontrivial, self.ident = op, args, exp, shape, nontrivial, ident
 
     def line(self, place):
-        return "%s %s %s" % (self.op, place, self.args)
+        # "@<class>": the shape a non-termination finding of this case is keyed with; the driver stops calling an (op, class)
+        # whose watchdog has fired TMO_BUDGET times in one run (answer NOTRUN) - the run ends in bounded time
+        return "%s %s %s @%s" % (self.op, place, self.args, re.sub(r"[\s@]", "_", str(self.shape_for("term"))))
 
     def shape_for(self, family):
         s = self.shape
@@ -398,13 +400,15 @@ def run(ctx):
     asan = fa.result(); guard = fg.result()
 
     fails = {}   # key -> [first detail, replay, count, places]
-    stats = {"ok_calls": 0, "refused_or_error_calls": 0, "crashed_cases": 0}
+    stats = {"ok_calls": 0, "refused_or_error_calls": 0, "crashed_cases": 0, "not_run_after_repeated_non_termination_of_their_function": 0}
     per_op = {}
 
     def judge(place, answers):
         for c, a in zip(cases, answers):
             if isinstance(a, dict):   # the parent driver itself died: cannot attribute -> infrastructure
                 raise common.Infra("driver parent process died: %s\n%s" % (a.get("crash"), a.get("raw", "")[-1500:]))
+            if a.split(" ", 2)[1:2] == ["NOTRUN"]:      # the driver's non-termination budget for this function is used up (every death before it is reported)
+                stats["not_run_after_repeated_non_termination_of_their_function"] += 1; continue
             def fail(kind, fam, det, shape=None, c=c, a=a):
                 key = "%s:%s:%s" % (FN[c.op], kind, shape if shape is not None else c.shape_for(fam))
                 ent = fails.setdefault(key, [det, {"case": c.line(place), "answer": a[:600].replace("\x1f", "\n")}, 0, set()])
@@ -416,7 +420,12 @@ def run(ctx):
             else: stats["refused_or_error_calls"] += 1; po[1] += 1
 
     runs = [("a", asan, ASAN_ENV), ("h", guard, None), ("l", guard, None)]
+    # quick tier: a driver run (one of 8 chunks of a placement) spends at most ~300 watchdog periods (150 ms of CPU time each) on
+    # functions that do not return, then stops calling an (op, input class) whose watchdog has fired 6 times (harness/c12_drv.c);
+    # the known non-termination of the unchanged tree stays below 160 watchdog deaths per run, so nothing of it is skipped
+    tmo_env = {"C12_TMO_FREE": "300", "C12_TMO_BUDGET": "6"} if ctx.quick else {}
     for place, exe, env in runs:
+        env = dict(env or {}, **tmo_env)
         t1 = time.time()
         answers = run_all(exe, [c.line(place) for c in cases], env, 8, pool)
         judge(place, answers)
